@@ -885,6 +885,25 @@ theorem any_isUnk_of_wk : ∀ (vs : List Payload), Payload.whollyKnownL vs = tru
     simp only [List.any_cons, any_isUnk_of_wk vs h.2, Bool.or_false]
     cases v <;> first | rfl | (simp [Payload.whollyKnown] at h)
 
+/-- over wholly known members the set loop never answers "unknown" -/
+theorem setInclWK_wk (rec : EqRec) (e : Ty) : ∀ (ix : List Int) (xs : List Payload) (iy : List Int) (ys : List Payload)
+    (o : Option Bool), Payload.whollyKnownL xs = true → setInclWK rec e ix xs iy ys = .ok o → o ≠ none
+  | [], xs, iy, ys, o, _, h => by cases xs <;> simp [setInclWK] at h <;> subst h <;> simp
+  | i :: is, [], iy, ys, o, _, h => by simp [setInclWK] at h; subst h; simp
+  | i :: is, x :: xs, iy, ys, o, hk, h => by
+    simp only [Payload.whollyKnownL, Bool.and_eq_true] at hk
+    simp only [setInclWK, hk.1, Bool.not_true, Bool.false_eq_true, if_false] at h
+    cases hh : setHas rec e i x iy ys <;> simp only [hh] at h <;> try (cases h; done)
+    cases hr : setInclWK rec e is xs iy ys with
+    | ok o' =>
+      have := setInclWK_wk rec e is xs iy ys o' hk.2 hr
+      cases o' with
+      | none => exact absurd rfl this
+      | some r => simp only [hr] at h; cases h; simp
+    | err c => simp only [hr] at h; cases h
+    | panic w => simp only [hr] at h; cases h
+    | unmodelled => simp only [hr] at h; cases h
+
 theorem wk_accVal {acc : EqAcc} (h : acc ≠ .u) : (accVal acc).whollyKnown = true := by
   cases acc
   · rfl
@@ -930,11 +949,19 @@ theorem equalsFuel_wk : ∀ fuel, RecWK (equalsFuel fuel) := by
             exact wk_accVal (equalsMap_wk ih _ _ _ hb _ _ _ ha hacc)
           · cases h; rfl
         · simp only [Payload.whollyKnown] at ha hb
-          simp only [any_isUnk_of_wk _ ha, any_isUnk_of_wk _ hb, Bool.or_self, Bool.false_eq_true, if_false] at h
-          repeat' split at h
-          all_goals first
-            | (cases h; done)
-            | (cases h; rfl)
+          split at h
+          · rename_i h1
+            exact absurd rfl (setInclWK_wk _ _ _ _ _ _ _ ha h1)
+          · split at h
+            · rename_i h2
+              exact absurd rfl (setInclWK_wk _ _ _ _ _ _ _ hb h2)
+            · cases h; rfl
+            · cases h
+            · cases h
+            · cases h
+          · cases h
+          · cases h
+          · cases h
         · cases h
         · cases h
 
